@@ -88,8 +88,8 @@ pub fn replay(args: &[String]) {
 			let s3 = (a + (b.open, b.high, b.low, b.close, b.volume)) + [c.open, c.high, c.low, c.close, c.volume];
 			out.checked += 3;
 			let same = |x: &Candle| {
-				x.open == e.open && x.high == e.high && x.low == e.low && x.close == e.close
-					&& (x.volume == e.volume || (x.volume.is_nan() && e.volume.is_nan()))
+				let eq = |p: ValueType, q: ValueType| p == q || (p.is_nan() && q.is_nan());
+				eq(x.open, e.open) && eq(x.high, e.high) && eq(x.low, e.low) && eq(x.close, e.close) && eq(x.volume, e.volume)
 			};
 			if !same(&s1) || !same(&s2) || !same(&s3) {
 				out.mismatch("Candle:add:value", json!({"a": r["a"], "b": r["b"], "c": r["c"], "expected": r["sum"], "actual": format!("{s1:?} {s2:?} {s3:?}")}));
